@@ -287,6 +287,59 @@ def mv_views(cfg):
     return 1 if cfg["form"] in ("obj", "dict_t", "bare_list") else cfg.get("n", 1)
 
 
+RECONF = ("xtw", "mv", "semseg")  # families whose transform(s) are public, reassignable attributes (transform / transform_configs[k].transform / transforms)
+
+
+def _decoy(k=0):
+    """a transform the wrapper is constructed with and that is replaced before the first request"""
+    import kappadata.transforms as kdt
+    return [RecDraws, lambda: kdt.KDAdditiveGaussianNoise(std=1.0), lambda: kdt.KDComposeTransform([RecDraws()]), kdt.KDIdentityTransform][k % 4]()
+
+
+def _final_transform(node):
+    from kappadata.factory import object_to_transform
+    return object_to_transform(_build_tree_for_wrapper(node))  # bare lists / dict(kind=...) resolved the way the constructors do
+
+
+def _mv_final(cfg):
+    import kappadata.transforms as kdt
+    from kappadata.factory import object_to_transform
+    form, tree = cfg["form"], cfg.get("tree")
+    if tree is None:
+        return neg_view if form == "callable" else kdt.KDIdentityTransform()
+    if form == "dict_kind":
+        return object_to_transform(H._leaf_as_dict(tree))
+    if form == "bare_list":
+        return object_to_transform([build_tree(m) for m in tree["members"]])
+    return build_tree(tree)
+
+
+def build_layer_reconfigured(ds, layer, k=0):
+    """the wrapper constructed with decoy transform(s); the final transform(s) are then assigned through the public attributes"""
+    import kappadata.wrappers as kdw
+    w = layer["w"]
+    if w == "xtw":
+        cls = {"x": kdw.XTransformWrapper, "y": kdw.YTransformWrapper, "source": kdw.SourceTransformWrapper, "target": kdw.TargetTransformWrapper}[layer["item"]]
+        kw = {} if layer.get("seed") is None else {"seed": layer["seed"]}
+        wr = cls(dataset=ds, transform=_decoy(k), **kw)
+        wr.transform = _final_transform(layer["tree"])
+        return wr
+    if w == "mv":
+        wr = kdw.KDMultiViewWrapper(dataset=ds, configs=[(mv_views(c), _decoy(k + j)) for j, c in enumerate(layer["configs"])], seed=layer["seed"])
+        for cfg_obj, c in zip(wr.transform_configs, layer["configs"]):
+            cfg_obj.transform = _mv_final(c)
+        return wr
+    if w == "semseg":
+        wr = kdw.SemsegTransformWrapper(dataset=ds, transforms=[_decoy(k)], seed=layer["seed"])
+        finals = [_final_transform(m) for m in layer["members"]]
+        if k % 2:
+            wr.transforms = finals
+        else:
+            wr.transforms[:] = finals
+        return wr
+    raise ValueError(w)
+
+
 def build_layer(ds, layer):
     import kappadata.wrappers as kdw
     import kappadata.common.wrappers as kcw
@@ -329,8 +382,9 @@ def root_items(layers):
     return tuple(sorted(items))
 
 
-def build_stack(spec, progress=None):
-    """-> ModeWrapper over the real stack. `progress["layer"]` names the layer under construction (for naming a crash)."""
+def build_stack(spec, progress=None, reconf=False):
+    """-> ModeWrapper over the real stack. `progress["layer"]` names the layer under construction (for naming a crash).
+    reconf: layers of the RECONF families are constructed with decoys and reconfigured through their public attributes"""
     from kappadata.wrappers import ModeWrapper
     progress = progress if progress is not None else {}
     progress["layer"] = None
@@ -339,7 +393,10 @@ def build_stack(spec, progress=None):
                  classes=d.get("classes"), n_classes=d.get("n_classes"))
     for i, layer in enumerate(spec["layers"]):
         progress["layer"] = i
-        ds = build_layer(ds, layer)
+        if reconf and layer["w"] in RECONF:
+            ds = build_layer_reconfigured(ds, layer, k=spec["data"]["seed"] + i)
+        else:
+            ds = build_layer(ds, layer)
     progress["layer"] = "mode"
     return ModeWrapper(dataset=ds, mode=spec["mode"], return_ctx=bool(spec.get("return_ctx")))
 
